@@ -58,7 +58,7 @@ FAM = {
     "plans": plans,
     "replay_plan": lambda rp, run: [("replay", {"cases": [{"produces": rp["event"]["produces"], "registered": rp["event"]["registered"],
                                                            "def": rp["event"]["def"], "accs": [rp["event"]["acc"]],
-                                                           "accs2": [rp["event"].get("acc2", "")], "compact": rp["event"].get("compact", False)}],
+                                                           "accs2": [rp["event"].get("acc2", "")], "compact": rp["event"].get("compact", False), "preCT": rp["event"].get("preCT", "")}],
                                                 "random": 0, "reps": 12}, None, False)],
     "trace_module": "NegoTrace",
     "trace_const": "CONSTANT TrimsAndScansParams = TRUE\n",
